@@ -129,17 +129,20 @@ def opens (s : Str) : Option (Option Str) :=
     | none => if reIndentKeyword s then some none else none
   else none
 
+/-- the first half of `writeline`: "see if this line should decrease the indentation level" -/
+def dedentStep (σ : PS) (line : Option Str) : PS :=
+  let dedent : Bool := !isComment line &&
+    (!hasText line || (match line with | some s => isUnindentor σ.detail s | none => false)) && decide (σ.indent > 0)
+  if dedent then
+    match σ.detail with
+    | [] => { σ with indent := σ.indent - 1, err := true }
+    | _ :: d => { σ with indent := σ.indent - 1, detail := d }
+  else σ
+
 /-- one call of `PythonPrinter.writeline(line)` -/
 def step (σ : PS) (line : Option Str) : PS :=
   if σ.err then σ else
-  let dedent : Bool := !isComment line &&
-    (!hasText line || (match line with | some s => isUnindentor σ.detail s | none => false)) && decide (σ.indent > 0)
-  let σ1 : PS :=
-    if dedent then
-      match σ.detail with
-      | [] => { σ with indent := σ.indent - 1, err := true }
-      | _ :: d => { σ with indent := σ.indent - 1, detail := d }
-    else σ
+  let σ1 := dedentStep σ line
   if σ1.err then σ1 else
   match line with
   | none => σ1
